@@ -40,6 +40,19 @@ CHECKS["C04"] = dict(
     text="Handlers emit their tag and the operands they receive; for operand pairs over 11 value kinds, every binary operator, 5 handler-presence configurations and several handler result kinds the real trace (handler chosen, operand order, result conversion, error or not) must be the one LuaSem defines; __index/__newindex chains, __call positions, <= fallback, unary minus, tostring/__metatable likewise.",
     design_ref="DESIGN.md section 4 C04", note=LSEM_NOTE, specs=["LuaSem", "LuaSemTrace"])
 
+CHECKS["C05"] = dict(
+    technique="fault enumeration at every VM instruction boundary, each faulted run explained by TLC through fault injection into the TLA+ semantics (LuaSemFault), non-decreasing in the fault point; error-value family validated by LuaSemTrace",
+    category="fault_enumeration",
+    text="For every corpus program (protected bodies under pcall/xpcall/nested/metamethod/iterator/Go-side PCall) the real VM is run once per dispatch poll with a one-shot fault raised exactly there; TLC explores the fault-free run of the TLA+ semantics and, at every class of step boundaries, the run with the fault injected there; every real fault point must be explained by an injection point and the assignment must be non-decreasing, so lost, duplicated or reordered effects, wrong catcher, wrong handler count, damaged caller state or later misbehaviour are rejected. error(v,level) for v of every type through every catcher and host-function failures (RaiseError, Go panic) are validated likewise; a Go panic escaping, crash or hang is a violation by itself.",
+    design_ref="DESIGN.md section 4 C05", note=LSEM_NOTE + " Faults inside Go library functions occur only at their Lua callbacks; second faults (failing handler) are inconclusive.", specs=["LuaSem", "LuaSemTrace", "LuaSemFault"])
+CHECKS["C16"] = dict(
+    technique="TLA+ specs Lexical (Denote/Quote/Numeral/IntToStr) and Calendar (Fields/SecondsOf/strftime) model-checked by TLC; TLC-enumerated literal texts, numeral spellings and instants replayed on the real lexer/tonumber/coercion/os.date/os.time; real %q and tostring output validated by LexicalTrace",
+    category="model_checking",
+    text="TLC proves Denote(Quote(s))=s, the literal-form and numeral laws and the calendar round trip on the small scope, enumerates all literal forms of all strings <=4 over 10 bytes, all numeral spellings <=5 over 14 characters and boundary instants with the values they must denote, and the real readers/printers must agree (exactly inside the integer model, with each other outside it).",
+    design_ref="DESIGN.md section 4 C16",
+    note="Trusted: TLC, Json module, harness projection (bytes as integer arrays, float64 as exact mantissa*2^e), Go time for zone names. Not judged: shortest-digit float printing, C-library dependent spellings (hex floats, inf/nan), %c layout (locale-defined), DST zones.",
+    specs=["Lexical", "LexicalMC", "LexicalGen", "LexicalTrace", "Calendar", "CalendarMC"])
+
 NOT_YET = {}
 
 
